@@ -14,8 +14,13 @@ def seeds_of(d):
     return {os.path.join(d, "seed"): "seed", os.path.join(d, "copy"): "copy"}
 
 
-def try_project(w, seeds):
+def try_project(w, seeds, unwrapped=False):
+    """unwrapped: the object came out of np.load - its scalars are 0-d arrays, its lists 1-d arrays (see unwrap)"""
     try:
+        if unwrapped:
+            class View:
+                data = {k: unwrap(v) for k, v in w.data.items()}
+            return W.project_data(View, seeds), None
         return W.project_data(w, seeds), None
     except W.Unrepresentable as ex:
         return None, str(ex)[:200]
@@ -49,6 +54,44 @@ def compare_data(site, exp, got, but=()):
     return out
 
 
+def unwrap(x):
+    """what np.load hands back -> the Python value it stands for (0-d arrays -> scalars, 1-d arrays of strings / integers -> lists)"""
+    if isinstance(x, np.ndarray):
+        if x.ndim == 0:
+            return x.item()
+        if x.ndim == 1:
+            return x.tolist()
+    return x
+
+
+def npz_roundtrip(w, path, seeds):
+    """-> (loaded object, its projection, None) or (None, None, (violation key, text))"""
+    from wannierberri.w90files.win import WIN
+    try:
+        with quiet(), warnings.catch_warnings():
+            warnings.simplefilter("ignore")
+            w.to_npz(path)
+    except OSError:
+        raise
+    except Exception as ex:
+        return None, None, (f"raises:WIN.to_npz:{type(ex).__name__}", repr(ex)[:200])
+    try:
+        with quiet(), warnings.catch_warnings():
+            warnings.simplefilter("ignore")
+            w2 = WIN.from_npz(path)
+    except OSError:
+        raise
+    except Exception as ex:
+        return None, None, (f"raises:WIN.from_npz:{type(ex).__name__}", repr(ex)[:200])
+
+    class View:
+        data = {k: unwrap(v) for k, v in w2.data.items()}
+    try:
+        return w2, W.project_data(View, seeds), None
+    except W.Unrepresentable as ex:
+        return None, None, ("WIN.from_npz:value", str(ex)[:200])
+
+
 class ReadReplay:
     """one "done" state of MC_WinRead = one file for WIN.from_w90_file"""
 
@@ -79,7 +122,8 @@ class ReadReplay:
         det = dict(content=cont, style=sty, file_text=text[:1500], call="WIN.from_w90_file(seedname)")
         cls = ("mesh" if s["kp"] not in ("hole", "offgrid") else s["kp"]) + ":" + ("mp_wrong" if s["mpp"] == "wrong" else "mp_ok")
         self.counts[cls] = self.counts.get(cls, 0) + 1
-        self.counts["style:" + sty["pcase"] + sty["sep"] + ("+comments" if sty["comments"] else "")] = self.counts.get("style:" + sty["pcase"] + sty["sep"] + ("+comments" if sty["comments"] else ""), 0) + 1
+        sk = "style:" + sty["pcase"] + sty["sep"] + ("+comments" if sty["comments"] else "")
+        self.counts[sk] = self.counts.get(sk, 0) + 1
         self.counts["units:" + s["cu"] + "/" + s["at"]] = self.counts.get("units:" + s["cu"] + "/" + s["at"], 0) + 1
         w, ex = W.read_win(seedpath)
         exp_ok = s["rd"]["err"] == ""
@@ -162,6 +206,7 @@ class ObjReplay:
         following = not W.same_data(cur, W.canon_data(root["data"]))
         if not following:
             self.note("preset_object_differs_from_model")
+        via_npz = False
         for n, e in enumerate(hist[1:], start=2):
             st = self.states[self.hkey(hist[:n])]
             op, ident, step = e["op"], e["id"], n - 1
@@ -188,7 +233,7 @@ class ObjReplay:
                     return False
                 if op == "del" and ident not in cur:
                     self.note("del_absent_key:" + ("warning" if caught else "silent"))
-                new, prob = try_project(w, seeds)
+                new, prob = try_project(w, seeds, via_npz)
                 if new is None:
                     self.vio.violation(f"WIN.{op}:value", dict(det, problem=prob))
                     return False
@@ -204,12 +249,33 @@ class ObjReplay:
                     self.note(f"{op}:dictionary_differs_from_model")
                 cur = new
                 continue
+            if op == "npz":
+                # ---- to_npz(f) ; WIN.from_npz(f): the loaded object takes the place of the old one
+                w_new, new, problem = npz_roundtrip(w, os.path.join(d, f"s{step}.win.npz"), seeds)
+                if problem is not None:
+                    self.vio.violation(problem[0], dict(det, problem=problem[1]))
+                    return False
+                diff = W.same_data(cur, new)
+                if diff:
+                    self.vio.violation("WIN.from_npz:dictionary", dict(det, differing_keys=diff, saved={k: W.get(cur, k) for k in diff},
+                                                                       loaded={k: W.get(new, k) for k in diff}))
+                    return False
+                if any(isinstance(x, np.ndarray) and x.ndim == 0 for x in w_new.data.values()):
+                    self.note("npz:scalars_come_back_as_0d_arrays")
+                self.counts["npz_round_trips"] = self.counts.get("npz_round_trips", 0) + 1
+                w, cur, via_npz = w_new, new, True
+                continue
             # ---- write(seedname = t) ; WIN.from_w90_file(t)
             target = os.path.join(d, ident)
             consistent = bool(st["loaded"]["err"] == "")          # the model's dictionary equals the real one while `following`
             text, ex = W.write_win(w, target)
             if ex is not None:
-                self.vio.violation(f"raises:WIN.write:{ex.split(':')[0]}", dict(det, exception=ex, data_keys=sorted(cur)))
+                if via_npz:
+                    # the same dictionary is written without complaint before it goes through .npz (other behaviours)
+                    self.vio.violation("WIN.from_npz:object_not_writable", dict(det, exception=ex, data_keys=sorted(cur),
+                                                                                types={k: type(x).__name__ for k, x in w.data.items()}))
+                else:
+                    self.vio.violation(f"raises:WIN.write:{ex.split(':')[0]}", dict(det, exception=ex, data_keys=sorted(cur)))
                 return False
             spaced_in_file = []
             try:
@@ -330,6 +396,10 @@ def build_real(d, seedpath, how):
             w = WIN(seedname=seedpath)
             for k, v in py.items():
                 w[k] = v
+        elif how == 2:
+            # the documented way to make an object without a file: keys in any case, k-points and cell as nested lists
+            w = WIN.from_w90_file(seedname=None, data={k.upper() if k not in ("kpoints", "unit_cell_cart") else k: (v.tolist() if k in ("kpoints", "unit_cell_cart") else v)
+                                                       for k, v in py.items()})
         else:
             w = WIN(seedname=seedpath).update(py)
     return w
@@ -367,9 +437,19 @@ def record_calls(rep, vio, rng, n, wd):
                 recs.append(dict(kind="read", file=lines, seed="seed", mesh=True, out=out))
                 meta.append(dict(kind=kind, mesh=mesh, exception=ex, file_text=text[:1500]))
             else:
-                data["seedname"] = W.mk("str", 0, "seed")
-                w = build_real({k: v for k, v in data.items() if k != "seedname"}, os.path.join(d, "seed"), it % 2)
+                how = (it // 3) % 3 if mesh != "wrong" else (it // 3) % 2
+                data["seedname"] = W.mk("str", 0, "seed") if how != 2 else W.VNONE
+                try:
+                    w = build_real({k: v for k, v in data.items() if k != "seedname"}, os.path.join(d, "seed"), how)
+                except OSError:
+                    raise
+                except Exception as exb:
+                    vio.violation(f"raises:WIN.from_w90_file:{type(exb).__name__}", dict(call="WIN.from_w90_file(seedname=None, data=...)" if how == 2 else "WIN(...)",
+                                                                                         exception=repr(exb)[:200], data_keys=sorted(data)))
+                    continue
                 cur, prob = try_project(w, seeds)
+                if cur is not None and how == 2 and "mp_grid" not in data and W.get(cur, "mp_grid")["t"] == "ints":
+                    data["mp_grid"] = cur["mp_grid"]          # derived from the k-points by from_w90_file (checked by the clause mp_grid_derived after the round trip)
                 if cur is None or W.same_data(cur, data):
                     vio.violation("WIN.__setitem__:value", dict(problem=prob, what="the dictionary does not hold what was put in",
                                                                 differing=None if cur is None else W.same_data(cur, data)))
